@@ -84,6 +84,12 @@ def _shape(shard):
         except AttributeError:
             out["extra"]["skipped_no_coefficient_access"] = out["extra"].get("skipped_no_coefficient_access", 0) + 1
             continue
+        acs, bcs = np.asarray(acs, dtype=float), np.asarray(bcs, dtype=float)
+        if acs.ndim == 2 and acs.shape[0] == 2 and acs.shape[1] != 2:   # one column per section instead of one row
+            acs, bcs = acs.T, bcs.T
+        if not (acs.ndim == 2 and acs.shape == bcs.shape and acs.shape[1] == 2 and np.allclose(bcs[:, 0], 1.0)):
+            out["extra"]["skipped_no_coefficient_access"] = out["extra"].get("skipped_no_coefficient_access", 0) + 1
+            continue
         for a, b in zip(acs, bcs):
             _, h = freqz(a, b, worN=w)
             H *= h
